@@ -218,7 +218,12 @@ def rule_evicted_release(prog):
     res = RuleResult("R-MACRO-EVICT-ALL", "the release scan over an evicted macro's remaining events visits every event", floor=1)
     f = prog.fn_opt("kanata_keyberon::layout::Layout::release_keys_of_evicted_sequence")
     if f is None:
-        res.viol("anchor", "keyberon/src/layout.rs", "Layout::release_keys_of_evicted_sequence not found")
+        # the function that releases the keys of an evicted macro is gone altogether: nothing performs those releases
+        res.inst("scan", where="keyberon/src/layout.rs", ok=False)
+        res.oblige(False)
+        res.viol("scan/missing", "keyberon/src/layout.rs",
+                 "Layout::release_keys_of_evicted_sequence does not exist: when a fifth macro evicts the oldest running one, the keys "
+                 "that macro is holding are never released")
         return res
     res.fn(f)
     ex = early_loop_exits(f)
